@@ -1,6 +1,7 @@
 """C05 — partial: the trail-undo kernel (DecisionTracker)."""
 from common import Harness, source_lines
 from kani_prop import Attach, run_incrate, replay_incrate
+from cert_prop import CERT_ASSUMPTIONS, cert_extra, is_cert_replay, replay_cert
 
 PROP = "C05"
 SRC = "dt_trail.rs"
@@ -74,8 +75,12 @@ RULE = ("one evaluation = one CBMC property decided SUCCESS in a SUCCESSFUL harn
 
 
 def run(tier, seed, only):
-    return run_incrate(PROP, tier, seed, only, ATTACH, harnesses(tier), functions(), ASSUMPTIONS, [], RULE)
+    note = ["end-to-end part (certificate engine, NOT a solver query): every returned solution of the enumerated universes is checked for support - each selected solvable is reachable from the root (or an accepted soft requirement) through requirement edges whose chosen candidate is selected; this is an evaluation of the real output, the solver-decided part of C05 remains the trail-undo kernel"]
+    return run_incrate(PROP, tier, seed, only, ATTACH, harnesses(tier), functions(), ASSUMPTIONS + CERT_ASSUMPTIONS + note, [], RULE,
+                       extra=None if only else cert_extra(PROP, tier, seed))
 
 
 def replay(path):
+    if is_cert_replay(path):
+        return replay_cert(PROP, path)
     return replay_incrate(PROP, path, ATTACH)
